@@ -146,9 +146,12 @@ E: !enum
 Fl: !flags
   values:
     # doc of first
-    - first
+    first: 1
     # doc of second
-    - second
+    second: 2
+    # doc of both (a combined value declared AFTER its parts)
+    both: 3
+    none: 0
 
 # doc of A
 A: R
@@ -179,6 +182,9 @@ def comments_everywhere(ctx):
         if res[name] is None:
             raise RuntimeError("yardl rejected the commented model (%s)" % name)
     base = res["without"]["lits"].get("P", {})
+    if set(base) != {"python", "c++", "matlab"} or len(set(base.values())) != 1:
+        ctx.report("literal-differs", "the schema literal of protocol P of the commented model is not the same in all target languages "
+                   "(one `yardl generate` run for C++, Python and MATLAB)", {"model": variants["without"], "literals": base})
     for name in ("with", "reworded"):
         lits = res[name]["lits"].get("P", {})
         ctx.count("neutral_edit", "comments-everywhere")
